@@ -306,6 +306,55 @@ theorem join_R (F : NameFns) (L : NameLaws F) (d : NDF) (sp : List String) (k : 
         · simp only [nstep, hf]
           exact hs s hr'.1 hne
 
+theorem union_R (F : NameFns) (L : NameLaws F) (d : NDF) (sp : List String) (right : List String) (allow : Bool)
+    (h : R F d sp) (hwf : StepWF F sp (.unionByName right allow)) (hs : H_unionMissing F sp right allow) :
+    R F (nstep F d (.unionByName right allow)) (specStep F sp (.unionByName right allow)) := by
+  obtain ⟨hc, hnd, hh⟩ := h
+  have hrnd : (right.map F.low).Nodup := hwf
+  rcases hs with ha | ⟨hf, hall⟩
+  · subst ha
+    simp only [nstep, unionStep, specStep, Bool.false_and]
+    exact ⟨hc, hnd, hh⟩
+  · cases allow with
+    | false =>
+      simp only [nstep, unionStep, specStep, Bool.false_and]
+      exact ⟨hc, hnd, hh⟩
+    | true =>
+      have hlow : d.cols.map F.low = sp.map F.low := by rw [hc]; exact map_low_low F L sp
+      let ro := rightOnly F (sp.map F.low) right
+      have hsp' : specStep F sp (.unionByName right true) = sp ++ ro := by simp [specStep, ro]
+      have hself : (sp ++ ro).map F.low = sp ++ ro := map_low_self F _ hall
+      have hcols : (nstep F d (.unionByName right true)).cols = (sp ++ ro).map F.low := by
+        simp only [nstep, unionStep, hf, Bool.and_self, if_true, hlow, List.map_append, ro]
+      have hnd' : ((sp ++ ro).map F.low).Nodup := by
+        rw [List.map_append, List.nodup_append]
+        refine ⟨hnd, ?_, ?_⟩
+        · exact hrnd.sublist ((List.filter_sublist).map F.low)
+        · intro a ha b hb e
+          subst e
+          obtain ⟨r, hr, hrl⟩ := List.mem_map.mp hb
+          have := (List.mem_filter.mp hr).2
+          simp at this
+          rw [← hrl] at ha
+          obtain ⟨s0, hs0, hs0l⟩ := List.mem_map.mp ha
+          exact this s0 hs0 hs0l
+      rw [hsp']
+      refine ⟨hcols, hnd', ?_⟩
+      intro s hsm
+      unfold Has
+      have hdisp : (nstep F d (.unionByName right true)).disp
+          = (sp ++ ro).map (entry F) ++ d.disp := by
+        simp only [nstep, unionStep, hf, Bool.and_self, if_true, hlow]
+        congr 1
+        have e0 : sp.map F.low ++ (rightOnly F (sp.map F.low) right).map F.low = (sp ++ ro).map F.low := by
+          simp [ro]
+        rw [e0, hself]
+        apply List.map_congr_left
+        intro c hcm
+        simp [entry, hall c hcm]
+      rw [hdisp]
+      exact has_of_entries F L (sp ++ ro) _ hnd' s hsm
+
 /-- one step -/
 theorem step_R (F : NameFns) (L : NameLaws F) (d : NDF) (sp : List String) (st : NStep)
     (h : R F d sp) (hwf : StepWF F sp st) (hs : StepInScope F d sp st) :
@@ -322,6 +371,7 @@ theorem step_R (F : NameFns) (L : NameLaws F) (d : NDF) (sp : List String) (st :
   | toDF ns => exact toDF_R F L d sp ns hwf hs
   | groupAgg keys aliases => exact groupAgg_R F L d sp keys aliases hwf hs
   | joinUsing k right => exact join_R F L d sp k right h hwf hs.2
+  | unionByName right allow => exact union_R F L d sp right allow h hwf hs
 
 /-- any chain of steps -/
 theorem run_R (F : NameFns) (L : NameLaws F) (steps : List NStep) (d : NDF) (sp : List String)
